@@ -150,13 +150,17 @@ Proof. exact c04_loopback_silent_lemma. Qed.
 
 (* The flag that selects those hosts: set by Sim::crash exactly when software
    was running (a host whose software had finished is not drained), cleared by
-   bounce, never touched by a step or a registration. *)
+   bounce, never touched by a step or a registration; crashing a host that is
+   already down changes nothing (Rt::crash is idempotent, the flag stays set:
+   the host keeps being drained after any number of crash calls). *)
 Theorem c04_crashed_flag : forall d r,
   (running r = true -> crashed (crash1 r) = true) /\
   (running r = false -> crashed (crash1 r) = crashed r) /\
   crashed (bounce1 r) = false /\
   crashed (adv d r) = crashed r /\
-  crashed (new_rt (is_client r) (sw r) d) = false.
+  crashed (new_rt (is_client r) (sw r) d) = false /\
+  crash1 (crash1 r) = crash1 r /\
+  (crashed r = true -> crashed (crash1 r) = true).
 Proof. exact c04_crashed_flag_lemma. Qed.
 
 (* ---- non-vacuity ------------------------------------------------------------------- *)
